@@ -98,6 +98,21 @@ Qed.
 (* ------------------------------------------------------------------------------------------ *)
 (* printed tree                                                                                *)
 
+(* one line per node, pre-order, indentation = nesting, exact name: for EVERY style whose three strings have
+   one length (all six built-in styles) and every name, print_tree writes exactly the textbook recursive
+   rendering ref_print of the spec (yield_tree's set of unclosed depths is equivalent to passing the
+   accumulated prefix down) *)
+Theorem C06_print_export :
+  forall stem branch final t,
+    length stem = length branch -> length branch = length final ->
+    exists s, print_str (stem, branch, final) t = Ret s
+              /\ prop_print_export (stem, branch, final) t s = true.
+Proof.
+  intros stem branch final t H1 H2. exists (ref_print (stem, branch, final) t).
+  split; [apply print_is_ref; assumption|]. unfold prop_print_export. apply str_eqb_refl.
+Qed.
+Print Assumptions C06_print_export.
+
 (* a tree is determined by its pre-order list of (depth, name): forest_of_pre (Base/Rose.v) decodes it *)
 Theorem C06_print_tree_of_preorder_depths :
   forall t fuel, (length (pn 0 t) <= fuel)%nat -> forest_of_pre mk_plain fuel 0 (pn 0 t) = [erase t].
